@@ -1,8 +1,56 @@
-/- Line-protocol driver stub: answers every request line with "unimplemented". -/
-partial def loop (h : IO.FS.Stream) (out : IO.FS.Stream) : IO Unit := do
+/-
+  Line-protocol driver for the search-side models that are executable on their own: the PV buffer
+  (Model/Pv.lean).  One request line in, exactly one answer line out.  Core-only.
+
+    bufix <ply>            → the Go expression `bufIx(ply)` evaluated by the model
+    pv <op> <op> …         → runs the script on the flat buffer AND on the list-of-rows model from
+                             `newPV()`; ops: `n<ply>` = setNull(ply), `i<ply>:<move>` = insert(ply, move);
+                             answer: `<flat active> | <rows active> | <inv>` (moves comma separated,
+                             inv = 1 when every row length fits its room)
+-/
+import ChessVerif.Model.Pv
+
+open ChessVerif Pv
+
+def movesStr (ms : List Move) : String := String.intercalate "," (ms.map toString)
+
+def invOk (pv : Flat) : Bool :=
+  pv.moves.size == bufLen && pv.depth.size == maxPlies &&
+    (List.range maxPlies).all fun p => decide (0 ≤ pv.len p) && decide (pv.len p + p ≤ maxPlies)
+
+def tailStr (s : String) : String := String.ofList (s.toList.drop 1)
+
+def runOp (st : Flat × Rows) (op : String) : Option (Flat × Rows) :=
+  if op.startsWith "n" then
+    match (tailStr op).toNat? with
+    | some p => if p < maxPlies then some (st.1.setNull p, st.2.setNull p) else none
+    | none => none
+  else if op.startsWith "i" then
+    match (tailStr op).splitOn ":" with
+    | [ps, ms] =>
+      match ps.toNat?, ms.toNat? with
+      | some p, some m => if p + 1 < maxPlies then some (st.1.insert p m, st.2.insert p m) else none
+      | _, _ => none
+    | _ => none
+  else none
+
+def step (line : String) : String :=
+  match line.splitOn " " with
+  | ["bufix", p] =>
+    match p.toInt? with
+    | some v => toString (bufIx v)
+    | none => "bad-op"
+  | "pv" :: ops =>
+    let r := ops.foldl (fun acc op => acc.bind fun st => runOp st op) (some (Flat.new, Rows.new))
+    match r with
+    | some (f, r) => s!"{movesStr f.active} | {movesStr r.active} | {if invOk f then 1 else 0}"
+    | none => "bad-op"
+  | _ => "bad-op"
+
+partial def loop (h out : IO.FS.Stream) : IO Unit := do
   let line ← h.getLine
   if line.isEmpty then return ()
-  out.putStrLn "unimplemented"
+  out.putStrLn (step (line.dropRightWhile (fun c => c == '\n' || c == '\r')))
   out.flush
   loop h out
 
